@@ -25,7 +25,7 @@ def mix(*weighted):
 def crowd(kw, **extra):
     """several sub-array observations falling due together on a cluster with a generous ingest limit:
     simultaneous ingests, same-step starts, machines contended between ingest and workflows"""
-    a = dict(min_obs=2, start_gaps=(0, 0, 0, 1, 2), overlap=True, modes=('roomy',), max_duration=8)
+    a = dict(min_obs=2, start_gaps=(0, 0, 0, 1, 2, 3), overlap=True, modes=('roomy',), max_duration=8, unsorted='maybe')
     a.update(kw)
     a.update(extra)
     return scenarios(**a)
@@ -211,8 +211,8 @@ class C01(SimSpec):
         shipped2 = scenarios(delays=True, **kw)
         adv = scenarios(adversary=True, delays=True, **kw)
         advfew = scenarios(adversary=True, few_machines=True, min_obs=2, **kw)
-        return mix((2, shipped), (2, shipped2), (2, crowd(kw, delays=True)), (3, adv), (2, advfew),
-                   (1, crowd(kw, adversary=True)))
+        return mix((2, shipped), (2, shipped2), (2, crowd(kw, delays=True)), (2, adv), (2, advfew),
+                   (2, crowd(kw, adversary=True, min_obs=3)))
 
     def aborted(self, tr):
         return tr.status != 'completed' and tr.sc['alg']['kind'] != 'adversary'
@@ -437,7 +437,7 @@ class C08(SimSpec):
         kw = self.gen_kwargs(tier)
         return mix((3, scenarios(min_obs=2, delays=True, **kw)),
                    (1, scenarios(min_obs=2, few_machines=True, **kw)),
-                   (2, scenarios(min_obs=3, start_gaps=(0, 0, 0, 1), overlap=True, modes=('roomy',), delays=True, **kw)),
+                   (2, crowd(kw, min_obs=3, delays=True)),
                    (2, limited(kw)),
                    (1, scenarios(unsorted=True, min_obs=2, **kw)),
                    (1, scenarios(min_obs=3, start_gaps=(0, 0, 1), **kw)))
@@ -495,6 +495,10 @@ class C09(SimSpec):
 
 # ----------------------------------------------------------------------------------------- C12
 
+def canonical_len(sc):
+    return json.dumps(sc, sort_keys=True)
+
+
 def ingest_end_orders(tr):
     """(in order, reversed): pairs of overlapping ingests that end in start order / in the opposite order"""
     iv = [(r['begin'], r['begin'] + len(r['deposits'])) for r in tr.obs.values() if r['begin'] is not None]
@@ -527,6 +531,30 @@ class C12(SimSpec):
                    (1, scenarios(unsorted=True, min_obs=2, delays=True, **kw)),
                    (1, scenarios(delays=True, **kw)))
 
+    def run(self, sc):
+        tr = run_scenario(sc)
+        tr.paused = None
+        # every third case (decided by the scenario itself) is also run paused/resumed to the same end:
+        # the table must have one true row per simulated step there as well
+        if tr.status == 'completed' and len(canonical_len(sc)) % 3 == 0 and tr.final_now > 2:
+            T_ = int(tr.final_now)
+            k = max(1, (len(canonical_len(sc)) // 3) % (T_ - 1))
+            tr.paused = run_scenario(sc, pause=[k, T_])
+            tr.paused.pause_points = [k]
+        return tr
+
+    def violations(self, tr):
+        out = O.C12(tr)
+        if tr.paused is not None:
+            p = tr.paused
+            if p.status == 'completed':
+                for v in O.C12(p):
+                    v = dict(v)
+                    v['part'] = 'paused_' + v['part']
+                    v['msg'] = f"(start({p.pause_points[0]}) then resume({int(p.final_now)})) " + v['msg']
+                    out.append(v)
+        return out
+
     def nontrivial(self, tr):
         same, rev = ingest_end_orders(tr)
         return same + rev >= 1 or any(
@@ -536,7 +564,7 @@ class C12(SimSpec):
     def classes(self, tr):
         same, rev = ingest_end_orders(tr)
         return {'overlapping_ingests_end_in_order': same, 'overlapping_ingests_end_reversed': rev,
-                'rows_compared': 0 if tr.df is None else len(tr.df)}
+                'rows_compared': 0 if tr.df is None else len(tr.df), 'paused_variant': int(tr.paused is not None)}
 
     def summary(self, tr):
         s = super().summary(tr)
